@@ -353,7 +353,11 @@ func buildScript(seed uint64, p *ScriptPlan) (*built, error) {
 		// compression for this mutation, so the outer keeps its own offer)
 		i := inner.Find(echbox.ExtVersions)
 		inner.Exts[i] = echbox.VersionsExt(0x0303, 0x0302)
-		from, to = 0, 0
+		if !p.Compress || (i >= from && i < to) {
+			from, to = 0, 0
+		}
+		// (otherwise: other extensions are still referenced from the outer
+		// hello, which keeps its own offer of TLS 1.3)
 	}
 	if needRun := minRunFor(p.Mutations); to-from < needRun {
 		return nil, errSkip
